@@ -1127,7 +1127,7 @@ class Processor:
                         max(minidx, 0), min(maxidx, datalen)
                     ):
                         sliced_elements.append(NodeCoords(
-                            data[slice_index], data, intmin,
+                            data[slice_index], data, slice_index,
                             translated_path + "[{}]".format(slice_index),
                             ancestry + [(data, slice_index)], pathseg))
                     yield NodeCoords(
